@@ -52,6 +52,31 @@ def family_ok(acc, k):
     return True, ""
 
 
+WITNESS_CODES = sorted({0, 1, 999, 6000, 6001, 6999, 7001, 9999, 10000, 10001, 11001, 12001, 13001, 14001, 15001, 15999, 16001, 20001, 21001,
+                        31001, 41001, 51001, 65420, 65535, 70000, 101001, 1001001, 2 ** 31, 2 ** 32 - 1, 4294962001, 4294961001}
+                       | {1000 * j + d for j in range(0, 7) for d in (0, 1, 2, 500, 998, 999)})
+
+
+def witness_refute(repo, m, fn, param, k):
+    """(code, answer) for a boundary code on which the predicate's source evaluates to the wrong truth value, else None"""
+    from .. import sym
+    from ..astutil import strip_doc
+    for code in WITNESS_CODES:
+        try:
+            paths = sym.Interp(fold=lambda e: repo.fold(m, e)).run(strip_doc(fn.body), sym.PathState({param: code}, [], []))
+        except sym.TooMany:
+            return None
+        if len(paths) != 1 or paths[0].term not in ("return", "fall"):
+            continue
+        v = paths[0].value if paths[0].term == "return" else None
+        if not isinstance(v, (bool, int, type(None))):
+            continue
+        want = 1000 * k + 1 <= code <= 1000 * k + 999
+        if bool(v) != want:
+            return code, bool(v)
+    return None
+
+
 def check(ctx):
     repo = ctx.repo
     m = ctx.need(repo.mods.get("bromelia.utils"), "module bromelia.utils")
@@ -68,7 +93,15 @@ def check(ctx):
         try:
             acc = accepted_set(repo, m, fn, params[0], U)
         except Undecidable as e:
-            ctx.undecided("R-INTERVAL", construct, f"{m.rel}:{fn.lineno}", f"cannot normalise: {e}", key="shape")
+            # not an interval form: a concrete counter-example still refutes it (evaluation of the predicate's own source
+            # on boundary codes by the term interpreter); without one the rule stays undecided
+            cex = witness_refute(repo, m, fn, params[0], k)
+            if cex is not None:
+                ctx.violate("R-INTERVAL", construct, f"{m.rel}:{fn.lineno}",
+                            f"the predicate answers {cex[1]} for Result-Code {cex[0]} (n // 1000 == {cex[0] // 1000}, n % 1000 == {cex[0] % 1000}); "
+                            f"family {k}xxx is exactly [{1000*k+1},{1000*k+999}]", key="family")
+            else:
+                ctx.undecided("R-INTERVAL", construct, f"{m.rel}:{fn.lineno}", f"cannot normalise: {e}", key="shape")
             continue
         accs[k] = acc
         ok, why = family_ok(acc, k)
